@@ -47,6 +47,8 @@ namespace
     std::vector<long long> base_keys; std::vector<double> joined, split_out;   // base splitter (root only: base_keys/joined)
     double dot = 0, norm2 = 0, gmax = 0, gmin = 0, gsum = 0;
     int status = -1; Index iters = 0; double def_init = 0, def_final = 0, h0 = 0, h1 = 0;
+    // reference world only: how far a rounding-size perturbation of the right-hand side moves the same solve (noise floor)
+    double noise_sol = 0, noise_def = 0, noise_h0 = 0, noise_h1 = 0; long noise_iters = 0;
     int cmax = 0, cmin = 0;
     std::string chosen;
   };
@@ -314,24 +316,46 @@ namespace
       out.iters = solver->get_num_iter();
       out.def_init = solver->get_def_initial();
       out.def_final = solver->get_def_final();
+      auto error_norms = [&](const GlobalSystemVector& v, double& e0, double& e1)
+      {
+        if constexpr(mass_op_)
+        {
+          auto errors = Assembly::integrate_error_function<0>(the_domain_level.domain_asm, sol_func, v.local(), the_domain_level.space, cubature);
+          errors.synchronize(comm);
+          e0 = std::sqrt(double(errors.norm_h0_sqr));
+          e1 = e0;
+        }
+        else
+        {
+          auto errors = Assembly::integrate_error_function<1>(the_domain_level.domain_asm, sol_func, v.local(), the_domain_level.space, cubature);
+          errors.synchronize(comm);
+          e0 = std::sqrt(double(errors.norm_h0_sqr));
+          e1 = std::sqrt(double(errors.norm_h1_sqr));
+        }
+      };
+      if(reference)
+      {
+        // noise floor of this solve: the same solver on a right-hand side perturbed by a few ulps per entry. A long or
+        // non-converging Krylov iteration amplifies rounding differences (which a decomposition necessarily introduces in
+        // every reduction and interface sum) by many orders of magnitude; the comparison tolerances below scale with it.
+        GlobalSystemVector rhs2 = vec_rhs.clone(LAFEM::CloneMode::Deep);
+        GlobalSystemVector sol2 = vec_sol.clone(LAFEM::CloneMode::Deep);
+        sol2.format();
+        the_system_level.filter_sys.filter_sol(sol2);
+        for(Index d = 0; d < nd; ++d) { const double sgn = (((unsigned long long)(out.keys[d] * 2654435761ll + 4242) >> 7) & 1ull) ? 1.0 : -1.0; rhs2.local()(d, rhs2.local()(d) * (1.0 + sgn * 8.9e-16)); }
+        Solver::solve(*solver, sol2, rhs2, the_system_level.matrix_sys, the_system_level.filter_sys);
+        for(Index d = 0; d < nd; ++d) out.noise_sol = std::max(out.noise_sol, std::abs(sol2.local()(d) - vec_sol.local()(d)));
+        out.noise_def = std::abs(double(solver->get_def_final()) - out.def_final);
+        out.noise_iters = std::labs(long(solver->get_num_iter()) - long(out.iters));
+        double e0 = 0, e1 = 0, f0 = 0, f1 = 0;
+        error_norms(vec_sol, e0, e1); error_norms(sol2, f0, f1);
+        out.noise_h0 = std::abs(e0 - f0); out.noise_h1 = std::abs(e1 - f1);
+      }
       solver->done();
       multigrid_hierarchy->done();
       for(Index d = 0; d < nd; ++d) out.sol.push_back(vec_sol.local()(d));
       {
-        if constexpr(mass_op_)
-        {
-          auto errors = Assembly::integrate_error_function<0>(the_domain_level.domain_asm, sol_func, vec_sol.local(), the_domain_level.space, cubature);
-          errors.synchronize(comm);
-          out.h0 = std::sqrt(double(errors.norm_h0_sqr));
-          out.h1 = out.h0;
-        }
-        else
-        {
-          auto errors = Assembly::integrate_error_function<1>(the_domain_level.domain_asm, sol_func, vec_sol.local(), the_domain_level.space, cubature);
-          errors.synchronize(comm);
-          out.h0 = std::sqrt(double(errors.norm_h0_sqr));
-          out.h1 = std::sqrt(double(errors.norm_h1_sqr));
-        }
+        error_norms(vec_sol, out.h0, out.h1);
       }
       comm.barrier();
     }
@@ -416,7 +440,7 @@ namespace
           if(!close(r.lump[d], B.lump[j], 1e-12, s_lump)) sim::fail("LUMP_ROWS", "synchronised lumped rows differ from the one-process result");
           if(!close(r.rhs[d], B.rhs[j], 1e-12, s_rhs)) sim::fail("RHS", "assembled+synchronised right-hand side differs from the one-process vector");
           ++CNT.sol_entries;
-          if(!close(r.sol[d], B.sol[j], 1e-7, s_sol)) sim::fail("SOLUTION", "discrete solution differs from the one-process solution: " + std::to_string(r.sol[d]) + " vs " + std::to_string(B.sol[j]));
+          if(!(std::abs(r.sol[d] - B.sol[j]) <= 1e-7 * s_sol + 1e3 * B.noise_sol)) sim::fail("SOLUTION", "discrete solution differs from the one-process solution: " + std::to_string(r.sol[d]) + " vs " + std::to_string(B.sol[j]) + " (noise floor of the solve " + std::to_string(B.noise_sol) + ")");
         }
       }
       {
@@ -443,9 +467,11 @@ namespace
       if(A[0].status != B.status) sim::fail("SOLVER_STATUS", "solver status " + std::to_string(A[0].status) + " differs from the one-process status " + std::to_string(B.status));
       if(!close(A[0].def_init, B.def_init, 1e-10, B.def_init)) sim::fail("DEFECT_INIT", "initial defect differs from the one-process run: " + std::to_string(A[0].def_init) + " vs " + std::to_string(B.def_init));
       long di = long(A[0].iters) - long(B.iters);
-      if(di < -1 || di > 1) sim::fail("ITERATIONS", "iteration count " + std::to_string(A[0].iters) + " differs from the one-process count " + std::to_string(B.iters));
-      if(di == 0 && !(std::abs(A[0].def_final - B.def_final) <= 1e-4 * B.def_final + 1e-13 * B.def_init)) { char b[200]; snprintf(b, sizeof(b), "final defect differs from the one-process run: %.6e vs %.6e (initial %.6e, %d iterations)", A[0].def_final, B.def_final, B.def_init, int(B.iters)); sim::fail("DEFECT_FINAL", b); }
-      if(!close(A[0].h0, B.h0, 1e-6, B.h0) || !close(A[0].h1, B.h1, 1e-6, B.h1)) sim::fail("ERROR_NORMS", "H0/H1 errors differ from the one-process run");
+      const long di_tol = 1 + 2 * B.noise_iters;
+      if(di < -di_tol || di > di_tol) sim::fail("ITERATIONS", "iteration count " + std::to_string(A[0].iters) + " differs from the one-process count " + std::to_string(B.iters));
+      if(B.noise_sol > 1e-10 * (1.0 + std::abs(B.h0))) sim::probe("solve_amplifies_rounding_noise");
+      if(di == 0 && !(std::abs(A[0].def_final - B.def_final) <= 1e-4 * B.def_final + 1e-13 * B.def_init + 1e3 * B.noise_def)) { char b[200]; snprintf(b, sizeof(b), "final defect differs from the one-process run: %.6e vs %.6e (initial %.6e, %d iterations)", A[0].def_final, B.def_final, B.def_init, int(B.iters)); sim::fail("DEFECT_FINAL", b); }
+      if(!(std::abs(A[0].h0 - B.h0) <= 1e-6 * B.h0 + 1e3 * B.noise_h0) || !(std::abs(A[0].h1 - B.h1) <= 1e-6 * B.h1 + 1e3 * B.noise_h1)) sim::fail("ERROR_NORMS", "H0/H1 errors differ from the one-process run");
     }
 
     static void run(const RunCfg& rc)
